@@ -117,6 +117,7 @@ func (s *streamHTTP) SendMsg(m interface{}) (err error) {
 
 	cur := reply.ProtoReflect()
 	for _, fd := range s.method.resp {
+		fd = ownField(cur, fd)
 		cur = cur.Mutable(fd).Message()
 	}
 	msg := cur.Interface()
@@ -224,6 +225,7 @@ func (s *streamHTTP) decodeRequestArgs(args proto.Message) (int, error) {
 
 	cur := args.ProtoReflect()
 	for _, fd := range s.method.body {
+		fd = ownField(cur, fd)
 		cur = cur.Mutable(fd).Message()
 	}
 	msg := cur.Interface()
@@ -573,6 +575,7 @@ func AsHTTPBodyReader(stream grpc.ServerStream, msg proto.Message) (body io.Read
 		return nil, fmt.Errorf("expected %s got %s", want, name)
 	}
 	for _, fd := range s.method.body {
+		fd = ownField(cur, fd)
 		cur = cur.Mutable(fd).Message()
 	}
 
@@ -613,6 +616,7 @@ func AsHTTPBodyWriter(stream grpc.ServerStream, msg proto.Message) (body io.Writ
 		return nil, fmt.Errorf("expected %s got %s", want, name)
 	}
 	for _, fd := range s.method.resp {
+		fd = ownField(cur, fd)
 		cur = cur.Mutable(fd).Message()
 	}
 
